@@ -768,7 +768,7 @@ pub fn kinds() -> Vec<KindInfo> {
         KindInfo { name: "msm", prop: "C14", expect: None, weight: 8, gen: gen_msm, run: run_msm, doc: "msm / msm_unchecked / msm_bigint / msm_chunks on G1, G2, Jubjub; a=#bases b=#scalars (MAX = same)" },
         KindInfo { name: "batch_mul", prop: "C14", expect: None, weight: 3, gen: gen_batch_mul, run: run_batch_mul, doc: "ScalarMul::batch_mul and BatchMulPreprocessing; a=#scalars b=table size hint" },
         KindInfo { name: "normalize", prop: "C14", expect: None, weight: 5, gen: gen_normalize, run: run_normalize, doc: "normalize_batch on SW (G1, G2) and TE; a=length" },
-        KindInfo { name: "pairing", prop: "C14", expect: None, weight: 4, gen: gen_pairing, run: run_pairing, doc: "multi_miller_loop / multi_pairing; a=#pairs b=identity mask c: bit0 full pairing, bits1+ curve (BLS12-381, BN254, BLS12-377, BW6-761, MNT4-298, MNT6-298)" },
+        KindInfo { name: "pairing", prop: "C14", expect: None, weight: 6, gen: gen_pairing, run: run_pairing, doc: "multi_miller_loop / multi_pairing; a=#pairs b=identity mask c: bit0 full pairing, bits1+ curve (BLS12-381, BN254, BLS12-377, BW6-761, MNT4-298, MNT6-298)" },
         KindInfo { name: "hash_to_curve", prop: "C14", expect: None, weight: 2, gen: gen_h2c, run: run_h2c, doc: "RFC 9380 hash to BLS12-381 G1/G2 (batched inversion inside the isogeny map with pools larger than its input); a=message length" },
         KindInfo { name: "batch_check", prop: "C14", expect: None, weight: 8, gen: gen_batch_check, run: run_batch_check, doc: "Vec/array/tuple of points deserialized with Validate::Yes; a=length b=position of an out-of-subgroup point (MAX = none)" },
         KindInfo { name: "mle", prop: "C14", expect: None, weight: 4, gen: gen_mle, run: run_mle, doc: "DenseMultilinearExtension add/sub/neg/scale/relabel/fix_variables/evaluate; a=num_vars" },
